@@ -1012,6 +1012,18 @@ pub fn boundary_text(r: &mut Rng, f: Fmt) -> Vec<u8> {
 		}
 		s.push_str(ch);
 	}
+	if r.chance(1, 2) {
+		// more than a whole 16 KiB buffer of input after the straddling character
+		let more = r.range(17_000, 40_000);
+		let end = s.len() + more;
+		while s.len() < end {
+			if r.chance(1, 200) {
+				s.push_str(ch);
+			} else {
+				s.push('w');
+			}
+		}
+	}
 	s.push_str(tail);
 	s.into_bytes()
 }
